@@ -86,7 +86,7 @@ Fixpoint d_ast (fuel : nat) (t : tr) : option ast :=
     end
   end.
 
-Definition run (c : tr) : tr :=
+Definition run_perm (c : tr) : tr :=
   match c with
   | L [I 0%Z; bits; a] =>
       match dN bits, d_ast 200 a with
